@@ -181,7 +181,8 @@ Definition advance (d : dcfg) (s : st) (t : Z) : st :=
 (* ---- operations ----------------------------------------------------------------------------- *)
 Inductive op :=
 | Coin (k : nat) | Service | CreditEv (j : nat) | Start | EndBall | EndGame | Wait (ms : Z)
-| ToggleFree | EnableFree | EnableCredit | ResetCredits | ResetEarnings.
+| ToggleFree | EnableFree | EnableCredit | ResetCredits | ResetEarnings
+| StartBurst (n : nat).   (* n start presses inside one run of the event queue *)
 
 Record evs := mkEvs { e_not_enough : Z; e_max : Z; e_added : Z; e_accepted : Z }.
 Definition no_evs := mkEvs 0 0 0 0.
@@ -208,6 +209,41 @@ Definition end_game (d : dcfg) (s : st) : st :=
 
 Definition game_full (s : st) : bool := (max_players <=? npl s) || (1 <? cball s).
 
+(* one press of the start button *)
+Definition start_st (d : dcfg) (s : st) : st :=
+  if ingame s then
+    if game_full s then s else add_player d s
+  else
+    if fp s then add_player d (set_game s true 0 0 0)
+    else if affordable d s then
+      (* mode_game_started -> _game_started: delays removed, tier counter restarts *)
+      add_player d (set_timers (set_credit (set_game s true 0 0 0) (units s) 0) None None)
+    else s.
+
+Definition start_ev (d : dcfg) (s : st) (presses : Z) : evs :=
+  if fp s then no_evs
+  else if ingame s && game_full s then no_evs
+  else if affordable d s then no_evs
+  else mkEvs presses 0 0 0.
+
+(* n presses inside one run of the event queue (known finding start-burst-unpaid).  In attract only one game is
+   started.  In a game every press passes game.request_player_add against the same player list, every
+   player_add_request is checked by _player_add_request against the same balance (the deduction happens later, on
+   player_added, and is floored at 0): all n players are added or none. *)
+Definition paid_join (d : dcfg) (s : st) : st :=
+  let s2 := with_audit (join_game s) 0 0 1 0 0 in set_credit s2 (Z.max 0 (units s2 - d_upg d)) (tc s2).
+Fixpoint iter_st (n : nat) (f : st -> st) (s : st) : st := match n with O => s | S k => iter_st k f (f s) end.
+Definition burst_st (d : dcfg) (s : st) (n : nat) : st :=
+  match n with
+  | O => s
+  | S _ =>
+      if ingame s then
+        if game_full s then s
+        else if fp s then iter_st n join_game s
+        else if affordable d s then iter_st n (paid_join d) s else s
+      else start_st d s
+  end.
+
 Definition apply_op (d : dcfg) (s : st) (o : op) : st :=
   match o with
   | Coin k =>
@@ -224,15 +260,8 @@ Definition apply_op (d : dcfg) (s : st) (o : op) : st :=
       | None => s
       | Some n => reset_timeouts d (with_audit (add_units d s n false) 0 0 0 0 (nth j (d_ev_int d) 0))
       end
-  | Start =>
-      if ingame s then
-        if game_full s then s else add_player d s
-      else
-        if fp s then add_player d (set_game s true 0 0 0)
-        else if affordable d s then
-          (* mode_game_started -> _game_started: delays removed, tier counter restarts *)
-          add_player d (set_timers (set_credit (set_game s true 0 0 0) (units s) 0) None None)
-        else s
+  | Start => start_st d s
+  | StartBurst n => burst_st d s n
   | EndBall =>
       if negb (ingame s) then s
       else if cpl s <? npl s then set_game s true (npl s) (cpl s + 1) (cball s)
@@ -268,10 +297,8 @@ Definition apply_ev (d : dcfg) (s : st) (o : op) : evs :=
       | None => no_evs
       | Some n => mkEvs 0 (b2z (add_over d s n false)) (b2z (add_doit d s)) 0
       end
-  | Start =>
-      if fp s then no_evs
-      else if ingame s && game_full s then no_evs
-      else if affordable d s then no_evs else mkEvs 1 0 0 0
+  | Start => start_ev d s 1
+  | StartBurst n => match n with O => no_evs | S _ => start_ev d s (Z.of_nat n) end    (* every refused press posts *)
   | _ => no_evs
   end.
 
